@@ -102,9 +102,9 @@ SPP = 'slashpath.Join("/parameters", jsonpointer.Escape(n))'
 P6 = ('forall n in %s :: ' + itpairs('s.spec.Parameters[n].Items', SPP) +
       ' && (s.spec.Parameters[n].In == "body" && s.spec.Parameters[n].Schema != nil ==> ' + schpairs('*s.spec.Parameters[n].Schema', SPP, '"schema"') + ')')
 SRP = 'slashpath.Join("/responses", jsonpointer.Escape(n))'
-P7 = ('forall n in %s :: (forall h in dom(s.spec.Responses[n].Headers) :: ' + itpairs('s.spec.Responses[n].Headers[h].Items', 'slashpath.Join(%s, "headers", h)' % SRP) + ')' +
+P7 = ('forall n in %s :: (forall h in dom(s.spec.Responses[n].Headers) :: ' + itpairs('s.spec.Responses[n].Headers[h].Items', 'slashpath.Join(%s, "headers", jsonpointer.Escape(h))' % SRP) + ')' +
       ' && (s.spec.Responses[n].Schema != nil ==> ' + schpairs('*s.spec.Responses[n].Schema', SRP, '"schema"') + ')')
-P8 = 'forall h in seen :: ' + itpairs('response.Headers[h].Items', 'slashpath.Join(refPref, "headers", h)')
+P8 = 'forall h in seen :: ' + itpairs('response.Headers[h].Items', 'slashpath.Join(refPref, "headers", jsonpointer.Escape(h))')
 P9 = 'forall n in %s :: ' + schpairs('s.spec.Definitions[n]', '"/definitions"', 'n')
 D5, D6, D7, D9 = 'dom(docPaths(s))', 'dom(s.spec.Parameters)', 'dom(s.spec.Responses)', 'dom(s.spec.Definitions)'
 out += ['//@ func (s *Spec) initialize()', '//@   aspect refs',
